@@ -36,6 +36,7 @@ func runReaderProps(r *Run, prop string) {
 	} else {
 		c04Aliases(r)
 	}
+	c03WideUnion(r)
 	n := r.N(260, 6000)
 	fam := readerFamily()
 	for i := 0; i < n; i++ {
